@@ -17,8 +17,12 @@ from ..sim import World, MS, HarnessError, Abort
 
 PID = "C16"
 DIRECT = D.DEFAULT_ADDR
-VIAS = (DIRECT, 0o1, 0o5, 0o15, 0o123)
+VIAS = (DIRECT, 0o1, 0o5, 0o15, 0o123, 0o444)  # 0o444: the only parent whose child slot 4 is the unassigned address 0o4444
 UNLEASED = 0o33  # never handed out by any request of the alphabet
+# The master waits route_timeout (default 75 ms) for a NETWORK_ACK after every reply routed over more
+# than one hop and repeats the reply when none arrives; no modelled node sends one, so the documented
+# attribute is lowered to keep an execution short.  Both copies of the reply are judged.
+ROUTE_TIMEOUT_MS = 2
 
 STARTS = {
     "empty": [],
@@ -36,6 +40,7 @@ def mk_master(table):
     w = World(horizon_ns=10 ** 15).activate()
     H.reset_frame_ids()
     m, r = H.mk_node(w, 0, cls=H.RF24Mesh, node_id=0)
+    m.route_timeout = ROUTE_TIMEOUT_MS
     for nid, addr in table:
         m.set_address(nid, addr)
     w.phantom_ack = _always
@@ -268,7 +273,7 @@ def w_expand(item, rep):
                 rep.outcome(out)
                 for sig, what in viol:
                     rep.violation(sig, what, {"part": "bfs", "start": start, "history": list(hist) + [ev]})
-                key = tuple(table_of(st2[1]))
+                key = tuple(sorted(table_of(st2[1])))
                 if collect == "full":
                     succ.append((key, tuple(hist) + (ev,)))
                 else:
@@ -280,10 +285,10 @@ def w_expand(item, rep):
 
 
 def bfs_parallel(start, ids, depth, rep, max_states):
-    """level-synchronous E-BFS with global dedup on the (insertion-ordered) lease table.
+    """level-synchronous E-BFS with global dedup on the lease table (sorted id->address map).
     A frontier state is identified by the shortest, lexicographically first history reaching it
     and is rebuilt by re-executing that history on a fresh master."""
-    seen = {tuple(STARTS[start])}
+    seen = {tuple(sorted(STARTS[start]))}
     frontier = [()]
     rep.states += 1
     done = 0
@@ -368,14 +373,14 @@ def run(tier, seed, rep, only=None):
     need = ["req:direct:new-id:granted-after-collision-skip", "req:direct:new-id:no-reply-parent-full", "req:relay-L1:new-id:no-reply-parent-full"]
     miss = [k for k in need if k not in rep.outcomes] + ([] if any(":re-request:" in k for k in rep.outcomes) else ["re-request"]) \
         + ([] if any("released-address-reissued" in k for k in rep.outcomes) else ["released-address-reissued"])
-    if miss and not only:
+    if miss and not only and not rep.violations:
         raise HarnessError("vacuous exploration: outcome classes never reached: %r" % miss)
     return dict(
         level="model_checking",
         exhaustive=True,
-        rule="E-BFS, level-synchronous with global dedup on the insertion-ordered lease table, over every event sequence up to the "
+        rule="E-BFS, level-synchronous with global dedup on the lease table (as a sorted id->address map), over every event sequence up to the "
              "depth bound from 4 starting tables on a real RF24Mesh master (node id 0). Events: address request of id i through "
-             "{direct, relay 0o1, 0o5, 0o15, 0o123} (a MESH_ADDR_REQUEST radio packet from a ghost PTX into the master's pipe 0 / child "
+             "{direct, relay 0o1, 0o5, 0o15, 0o123, 0o444} (a MESH_ADDR_REQUEST radio packet from a ghost PTX into the master's pipe 0 / child "
              "pipe, then update()), release of every leased address and of one unleased address by MESH_ADDR_RELEASE packet and by "
              "release_address(addr), save_dhcp+load_dhcp in JSON and binary into the same and into a freshly constructed master "
              "(which then continues the history). Every reply is read from the simulated air. A frontier state is rebuilt by "
@@ -386,7 +391,7 @@ def run(tier, seed, rep, only=None):
         assumptions=["every reply of the master is acknowledged by its next hop (world.phantom_ack)",
                      "dedup on the lease table: the first history (shortest, then lexicographically first) that reaches a table represents it; "
                      "the master keeps no other lease-relevant state between update() calls",
-                     "relays are the fixed nodes 0o1, 0o5, 0o15, 0o123 (levels 1-3); a reply is only *required* when one of the arrival node's "
+                     "relays are the fixed nodes 0o1, 0o5, 0o15, 0o123, 0o444 (levels 1-3); a reply is only *required* when one of the arrival node's "
                      "child slots 1..4 (MESH_MAX_CHILDREN) is free"],
         min_outcomes=18,
     )
